@@ -162,6 +162,7 @@ class DM14Server:
             case ResponseState.WAIT_OPERATION_COMPLETE:
                 self.state = ResponseState.IDLE
                 self.sa = None
+                self.address = None
                 self._ca.unsubscribe(self.parse_dm14)
 
             case _:
